@@ -999,9 +999,7 @@ pub mod fasta {
         ensures
             [C20,C13|fasta.SeqLines.next.frame] final(self).data == old(self).data,
             [C20|fasta.SeqLines.next.exact_len] final(self).swf(),
-//@closure 0 params="vx_p: (&'a usize, &'a usize)" bind=vx_p expect_names=start,next_start ret="(q: &'a [u8])"
-            requires *vx_p.0 + 1 <= *vx_p.1 <= self.data@.len()
-            [C12,C13,C20|fasta.SeqLines.next.item_is_trimmed_line] ensures q@ == trim(self.data@.subrange(*vx_p.0 + 1, *vx_p.1 as int))
+            [C12,C13,C20|fasta.SeqLines.next.item_is_trimmed_line] old(self).swf() && old(self).views().len() > 0 ==> (r matches Some(x) && x@ == old(self).views()[0]),
 //@tail vx_r
         proof {
             assert(old(self).rem().len() > 0 ==> self.views() =~= old(self).views().drop_first());
@@ -1023,13 +1021,11 @@ pub mod fasta {
         ensures
             [C20,C13|fasta.SeqLines.next_back.frame] final(self).data == old(self).data,
             [C20|fasta.SeqLines.next_back.exact_len] final(self).swf(),
+            [C12,C13,C20|fasta.SeqLines.next_back.item_is_trimmed_line] old(self).swf() && old(self).views().len() > 0 ==> (r matches Some(x) && x@ == old(self).views().last()),
 //@body_start
         proof {
             assert(self.rem().len() > 0 ==> *self.rem()[self.rem().len() - 1].0 + 1 <= *self.rem()[self.rem().len() - 1].1 <= self.data@.len());
         }
-//@closure 0 params="vx_p: (&'a usize, &'a usize)" bind=vx_p expect_names=start,next_start ret="(q: &'a [u8])"
-            requires *vx_p.0 + 1 <= *vx_p.1 <= self.data@.len()
-            [C12,C13,C20|fasta.SeqLines.next_back.item_is_trimmed_line] ensures q@ == trim(self.data@.subrange(*vx_p.0 + 1, *vx_p.1 as int))
 //@tail vx_r
         proof {
             assert(old(self).rem().len() > 0 ==> self.views() =~= old(self).views().drop_last());
@@ -1849,6 +1845,8 @@ trait RecordD {
             }
 //@at depth=1 kw=rset nth=1 expect="rset\.\w+\.clear\(\);"
         proof { broadcast use axiom_ref_items_slice; reveal(ps_valid); reveal(ps_lifted); }
+//@at tail expect="(return )?Some\(Ok\("
+        proof { assert(rset.buffer@ =~= self.b()); }
 //@end
 
 //@fn fasta::Reader::read_record_set ret=r tags=C04,C09
@@ -2104,8 +2102,6 @@ trait RecordD {
                 && rec.rwf() && final(self).rem() == old(self).rem().drop_first()),
             [C20|fasta.RecordSetIter.next.none_is_sticky] old(self).rem().len() == 0 ==> r is None && final(self).rem().len() == 0,
             [C20,C06|fasta.RecordSetIter.next.frame] final(self).iwf() && final(self).buffer == old(self).buffer,
-//@closure 0 params="p: &'a BufferPosition" ret="(q: RefRecord<'a>)"
-            ensures q.buffer == self.buffer && q.buf_pos == p
 //@tail vx_r
         proof {
             assert(vx_r is Some ==> old(self).pos.decrease() is Some && self.pos.decrease() is Some
